@@ -151,6 +151,11 @@ def security_update(chk, pid):
                         else:
                             okp = canon(pf) == canon(("sub", ("param", "data"), fld(SELF, "name")))
                             exp_p = "data[self.name]"
+                            # ... and a quote that was handed in is recorded in the security's own price history (that is what `prices` reports)
+                            rec = [e for e in S.events if hist_store(e) and series_name(hist_store(e)[0]) == R.SPRICES and not sym.inconsistent(sym.sat(tuple(g2) + tuple(lits(plain(e.guard)))))
+                                   and canon(sym.restrict(hist_store(e)[2], g2)) == canon(pf) and is_inow(hist_store(e)[1], guard=g2)]
+                            chk.ob("C01.R1", bool(rec), fi.module, host, "price-source:handed-in-recorded",
+                                   "a quote handed to update() is written into the security's price history at the current row", where=fi.where, expected="%s.values[inow] = data[self.name]" % R.SPRICES)
                         chk.ob("C01.R1", okp, fi.module, host, "price-source:%s" % ("stored" if prices_known else "handed-in"),
                                "on a new date the price is the security's own stored price series at the current row when it was given at setup (what the `prices` history reports), "
                                "and the quote handed to update() only otherwise", where=fi.where, expected=exp_p, found=short(pf, 160))
@@ -610,7 +615,7 @@ def strategy_update(chk, pid):
             if pid in ("C08", "C02") and len(u.args) >= 3:
                 chk.ob("C08.R4", is_inow(u.args[2]), CORE, host, "child-update-inow", "the row index handed to children is the current one", where=u.where, found=short(u.args[2]))
     # ---- C01.R3 weights
-    if pid in ("C01", "C06", "C17"):
+    if pid in ("C01", "C06", "C17", "C16"):
         ww = [e for e in S.events if e.kind == "write" and e.field == R.WEIGHT and e.obj[0] == "elem"]
         chk.need(ww, "%s no longer assigns child weights" % host)
         the_notl = S.writes(R.NOTIONAL, SELF)[-1].value if S.writes(R.NOTIONAL, SELF) else None
@@ -627,7 +632,7 @@ def strategy_update(chk, pid):
                        where=w.where, expected="skip only when c._issec and not c.%s" % R.NEEDUPDATE, found=sym.fmt_guard(elem_lits)[:200])
             # decided per accounting mode and per zero / non-zero base, whether the code branches on them or computes flags first
             for is_fi in (True, False):
-                if is_fi and pid not in ("C01", "C17"):
+                if is_fi and pid not in ("C01", "C17", "C16"):
                     continue
                 if (not is_fi) and pid not in ("C01", "C06"):
                     continue
@@ -671,6 +676,40 @@ def strategy_update(chk, pid):
         # the rows of the bankruptcy date hold the post-liquidation figures (read after the liquidation, not carried over from before it)
         pairs = [(R.CAPITAL, R.CASH, "C16"), (R.VALUE, R.VALUES, "C16")]
     _strategy_rows(chk, pid, S, fi, host, R, pairs)
+    if pid in ("C08", "C07", "C18"):
+        # idempotence: a redundant update visits fewer children (securities gone dormant are skipped), so anything summed over the visited children may only be
+        # recorded when the update records a change (new date or the value / notional moved) - recorded unconditionally, the second update overwrites it with less
+        gate_atoms = [canon(a_) for w_ in S.writes(R.VALUE, SELF) if own_event(w_, S.fn.qual) for a_, p_ in lits(plain(w_.guard)) if p_ and isinstance(canon(a_), tuple) and canon(a_)[0] == "or"]
+        bad = []
+        for e in S.events:
+            if not own_event(e, S.fn.qual) or e.kind not in ("write", "store") or (e.kind == "write" and e.obj != SELF):
+                continue
+            v_ = e.value
+
+            def visited_sum(x):
+                # sums in value position (the condition of a phi node is not part of the value)
+                if not isinstance(x, tuple) or not x:
+                    return False
+                if x[0] == "sum" and len(x) == 4:
+                    return any(sym.contains(a_, lambda m: m[0] == "fld" and len(m) == 4 and m[2] == R.NEEDUPDATE) for a_, _p in x[2])
+                if x[0] == "ite" and len(x) == 4:
+                    return visited_sum(x[2]) or visited_sum(x[3])
+                if x[0] in ("fld", "param", "num", "str", "rat"):
+                    return False
+                return any(visited_sum(y) for y in x[1:])
+            if not isinstance(v_, tuple) or not visited_sum(v_):
+                continue
+            if any(sym.lit_holds(G(e), ga, True) for ga in gate_atoms):
+                continue
+            # recorded also when the gate is closed: what is recorded THEN must not depend on the visited children
+            for ga in gate_atoms:
+                g_closed = sym.sat(tuple(G(e)) + ((ga, False),))
+                if not sym.inconsistent(g_closed) and visited_sum(sym.restrict(v_, g_closed)):
+                    bad.append(e)
+                    break
+        chk.ob("C08.R2", not bad, CORE, host, "visited-children-sums-only-under-the-gate",
+               "what update sums over the children it visits (dormant securities are skipped) is recorded only when it records a change: outside that gate a redundant "
+               "update would overwrite it with the smaller sum", where=bad[0].where if bad else fi.where, found="; ".join(e.where for e in bad)[:160])
     # ---- C03 / C17 index formulas
     if pid in ("C03", "C17", "C10", "C08"):
         _index_rules(chk, pid, S, fi, host, R)
@@ -1203,6 +1242,10 @@ def transact_rules(chk, pid):
         adj_for_amount = []
     else:
         adj_for_amount = adj
+    if pid == "C09" and adj:
+        u_ = bound_args(adj[-1], chk.prog).get("update")
+        chk.ob("C01.R6", u_ is not None and canon(u_) == canon(("param", "update")), CORE, host, "adjust-update-flag",
+               "the caller's update flag is handed to the parent (the parent marks the tree it belongs to: inside a shadow copy the security's own root pointer may be stale)", where=adj[-1].where)
     for a in adj:
         gg = G(a)
         ab = bound_args(a, chk.prog)
@@ -1221,7 +1264,7 @@ def transact_rules(chk, pid):
             if pid == "C07":
               chk.ob("C07.R2", ok, CORE, host, "adjust-fee", "the commission is recorded as the parent's fee, once", where=a.where, expected="fee = commission component of outlay()",
                    found=short(f, 160) if f else "missing")
-            if a is adj[-1] and pid == "C01":
+            if a is adj[-1] and pid in ("C01", "C09"):
                 u = ab.get("update")
                 chk.ob("C01.R6", u is not None and canon(u) == canon(("param", "update")), CORE, host, "adjust-update-flag", "the caller's update flag is handed to the parent", where=a.where)
         if pid in ("C03", "C07"):
